@@ -167,13 +167,39 @@ func c16Rules(p *core.Prog, r *core.Run) {
 			continue
 		}
 		nCached++
-		fresh := false
+		fresh, sameHold := false, false
 		for _, f := range p.Facts(ret.Block()) {
 			if f.Op == "true" && f.L.Op == "call" && f.L.Name == "(time.Time).Before" && len(f.L.Args) == 2 && f.L.Args[0].Op == "call" && f.L.Args[0].Args[0].Name == "ech.timeNow" && f.L.Args[1].Op == "field" && f.L.Args[1].Obj == exp {
 				fresh = true
+				// the answer returned was read while the lock that protected the
+				// expiry just tested was still held: no release between the two reads
+				ldExp, ok1 := f.L.Args[1].Val.(ssa.Instruction)
+				resV := ret.Results[0]
+				if u, isLoad := resV.(*ssa.UnOp); isLoad {
+					// functions with defers return through result cells: take the value stored last
+					if cell, isCell := u.X.(*ssa.Alloc); isCell {
+						for _, in := range ret.Block().Instrs {
+							if st, isSt := in.(*ssa.Store); isSt && st.Addr == ssa.Value(cell) {
+								resV = st.Val
+							}
+						}
+					}
+				}
+				ldRes, ok2 := resV.(ssa.Instruction)
+				if ok1 && ok2 {
+					sameHold = true
+					for _, u := range callSites(p, []*ssa.Function{one}, `\(\*sync\.RWMutex\)\.(RUnlock|Unlock)`) {
+						if _, isDefer := u.Instr.(*ssa.Defer); isDefer {
+							continue
+						}
+						if core.Before(ldExp, u.Instr) && core.Before(u.Instr, ldRes) || core.Before(ldRes, u.Instr) && core.Before(u.Instr, ldExp) {
+							sameHold = false
+						}
+					}
+				}
 			}
 		}
-		r.Check("C16.FRESH", fmt.Sprintf("cached-return#%d", nCached), fresh, p.InstrPos(ret), "a cached answer is returned only under timeNow().Before(expiration)")
+		r.Check("C16.FRESH", fmt.Sprintf("cached-return#%d", nCached), fresh && sameHold, p.InstrPos(ret), "a cached answer is returned only under timeNow().Before(expiration) (%v), and it is the answer read under the same hold of the entry's lock as that expiry (%v)", fresh, sameHold)
 	}
 	r.Check("C16.FRESH", "cached-returns", nCached == 2, p.Pos(one.Pos()), "fast path and re-check under the write lock (found %d cached returns)", nCached)
 
